@@ -12,7 +12,10 @@ package test
 //      Verifier().Verify / VerifyVP;
 //   3. negative direction: 1..4 independent trials, each 1..3 mutation operators applied to the document (JSON-LD: the
 //      JSON tree, including embedded credentials and proof options; JWT: decoded header / claims re-encoded under the
-//      ORIGINAL signature), then verified again.
+//      ORIGINAL signature), then verified again (Verifier with allowUntrusted always, the HTTP entry point on the first trial);
+//   4. a third of the single-credential cases ends with the revocation round trip: the status list credential the node
+//      serves for the credential verifies, the node revokes it, its verifier accepts the node's own revocation
+//      (RegisterRevocation), and the credential is rejected from then on.
 //
 // Oracle (DESIGN.md C01-a). view(d) = canonical JSON of what the parser hands to the rest of the node (json.Marshal of
 // the parsed struct, proof projected onto the members the verifier reads, signatures compared by value). A trial carries
@@ -47,8 +50,10 @@ import (
 	"github.com/nuts-foundation/nuts-node/jsonld"
 	"github.com/nuts-foundation/nuts-node/test/node"
 	"github.com/nuts-foundation/nuts-node/vcr"
+	"github.com/nuts-foundation/nuts-node/vcr/credential"
 	"github.com/nuts-foundation/nuts-node/vcr/holder"
 	"github.com/nuts-foundation/nuts-node/vcr/signature/proof"
+	"github.com/piprate/json-gold/ld"
 	"pgregory.net/rapid"
 	"verif.local/h"
 	"verif.local/h/jsonmut"
@@ -125,6 +130,8 @@ func c01StartNode(t *testing.T) {
 	c01N.issuers = [2]c01Subject{mk("c01-issuer-a"), mk("c01-issuer-b")}
 	c01N.holders = [2]c01Subject{mk("c01-holder-a"), mk("c01-holder-b")}
 	c01N.started = true
+	// the node stops with this test function (StartServer's cleanup)
+	t.Cleanup(func() { c01N.started = false })
 }
 
 func c01HTTP(method, url, body string) (int, []byte) {
@@ -181,6 +188,7 @@ type c01Case struct {
 	Nonce     string    `json:"nonce,omitempty"`
 	ExpiresH  int       `json:"expiresH,omitempty"` // VP proof expires in n hours (0 = none)
 	Purpose   string    `json:"purpose,omitempty"`
+	Revoke    bool      `json:"revoke,omitempty"` // single credential: finish with the revocation round trip
 	Trials    [][]c01Op `json:"trials"`
 }
 
@@ -230,7 +238,7 @@ var c01Keys = []string{
 
 func c01GenOp(t *rapid.T, label string, c c01Case) c01Op {
 	jwtDoc := (c.Doc == "vc" && c.Creds[0].Format == "jwt_vc") || (c.Doc == "vp" && c.VPFormat == "jwt_vp")
-	kinds := []string{"json", "json", "json", "json", "json", "json", "casefold", "date"}
+	kinds := []string{"json", "json", "json", "json", "json", "json", "casefold", "date", "add-lossy"}
 	if c.Doc == "vp" {
 		kinds = append(kinds, "vc-remove", "vc-insert", "vc-swap", "inner-jwt")
 	}
@@ -246,6 +254,12 @@ func c01GenOp(t *rapid.T, label string, c c01Case) c01Op {
 		}
 		op.M = jsonmut.Gen(t, label+".m", ops, c01Keys)
 		op.Focus = rapid.SampledFrom([]string{"", "", "subject", "subject", "subject", "proof", "top", "cred"}).Draw(t, label+".focus")
+		if op.Focus == "top" {
+			op.M.Node = 0
+		}
+	case "add-lossy":
+		op.M = jsonmut.Gen(t, label+".m", []string{"add"}, c01Keys)
+		op.Focus = rapid.SampledFrom([]string{"subject", "subject", "subject", "cred", "top", ""}).Draw(t, label+".focus")
 		if op.Focus == "top" {
 			op.M.Node = 0
 		}
@@ -284,6 +298,9 @@ func c01GenTamper(t *rapid.T) c01Case {
 		c.Creds = append(c.Creds, c01GenCred(t, fmt.Sprintf("cred%d", i)))
 	}
 	c.Extra = c01GenCred(t, "extra")
+	if c.Doc == "vc" {
+		c.Revoke = rapid.IntRange(0, 2).Draw(t, "revoke") == 0
+	}
 	nt := rapid.IntRange(1, 4).Draw(t, "ntrials")
 	for i := 0; i < nt; i++ {
 		k := rapid.SampledFrom([]int{1, 1, 1, 2, 3}).Draw(t, fmt.Sprintf("t%d.n", i))
@@ -509,28 +526,40 @@ func c01ProjectProof(p any) any {
 		}
 		return out
 	case map[string]any:
-		out := map[string]any{}
+		// The verifier reads the proof through proof.LDProof (encoding/json: member names match case-insensitively,
+		// dates are instants): the view is what that struct holds.
+		var ld proof.LDProof
+		b, _ := json.Marshal(t)
+		if err := json.Unmarshal(b, &ld); err == nil {
+			out := map[string]any{
+				"type":               string(ld.Type),
+				"proofPurpose":       ld.ProofPurpose,
+				"verificationMethod": ld.VerificationMethod.String(),
+				"jws":                c01NormDetachedJWS(ld.JWS),
+			}
+			if !ld.Created.IsZero() {
+				out["created"] = ld.Created.UTC().Format(time.RFC3339Nano)
+			}
+			if ld.Expires != nil {
+				out["expires"] = ld.Expires.UTC().Format(time.RFC3339Nano)
+			}
+			if ld.Domain != nil {
+				out["domain"] = *ld.Domain
+			}
+			if ld.Challenge != nil {
+				out["challenge"] = *ld.Challenge
+			}
+			if ld.Nonce != nil {
+				out["nonce"] = *ld.Nonce
+			}
+			return out
+		}
+		// not a proof the verifier can read (it will refuse it): the members as written
+		out := map[string]any{"unreadable": true}
 		for _, k := range c01ProofMembers {
 			if v, ok := t[k]; ok {
 				out[k] = v
 			}
-		}
-		// the verifier reads the proof through proof.LDProof: compare what it sees (instants, not spellings)
-		var ld proof.LDProof
-		b, _ := json.Marshal(t)
-		if err := json.Unmarshal(b, &ld); err == nil {
-			if _, ok := out["created"]; ok {
-				out["created"] = ld.Created.UTC().Format(time.RFC3339Nano)
-			}
-			if _, ok := out["expires"]; ok && ld.Expires != nil {
-				out["expires"] = ld.Expires.UTC().Format(time.RFC3339Nano)
-			}
-			if _, ok := out["verificationMethod"]; ok {
-				out["verificationMethod"] = ld.VerificationMethod.String()
-			}
-		}
-		if s, ok := out["jws"].(string); ok {
-			out["jws"] = c01NormDetachedJWS(s)
 		}
 		return out
 	}
@@ -713,7 +742,8 @@ type c01OpInfo struct {
 	Semantic bool     // carries the expectation (if it changes view and nothing else touches its location)
 	Why      string   // why not semantic
 	Detail   string
-	Changed  bool // view changed by this operator
+	Key      string // add on an object: the name of the new member
+	Changed  bool   // view changed by this operator
 }
 
 func c01IsEmptyLD(v any) bool {
@@ -946,6 +976,7 @@ func c01ApplyJSON(root any, focus string, m jsonmut.Mutation) (any, c01OpInfo, b
 						noexp("added-empty-value")
 					}
 					info.Detail = fmt.Sprintf("added member %q", k)
+					info.Key = k
 				}
 			}
 		case []any:
@@ -998,9 +1029,10 @@ func c01RunTamper(x *h.Ctx, c c01Case) {
 		return
 	}
 	subject := c01N.holders[c.Holder%2].did(c.HolderM)
+	// wall time per phase in microseconds (evidence only: where the budget goes)
 	t0 := time.Now()
 	lap := func(name string) {
-		h.Count("C01", x.Unit, "ms:"+name, int(time.Since(t0).Microseconds()))
+		h.Count("C01", x.Unit, "us:"+name, int(time.Since(t0).Microseconds()))
 		t0 = time.Now()
 	}
 	// 1. issue
@@ -1192,7 +1224,8 @@ func c01RunTamper(x *h.Ctx, c c01Case) {
 		h.Count("C01", x.Unit, "judged", 1)
 		x.Class("judged")
 		info := infos[judge]
-		x.Class("judged:" + info.Class + ":" + c01TopClass(info.Ptr, orig.jwt, op0Part(trial)))
+		x.Class("judged:" + info.Class)
+		x.Class("judged-at:" + c01TopClass(info.Ptr, orig.jwt, op0Part(trial)))
 		x.Class("judged@" + format)
 		if !valid {
 			x.Class("judged-rejected")
@@ -1202,7 +1235,11 @@ func c01RunTamper(x *h.Ctx, c c01Case) {
 		opClass := info.Class
 		ptrClass := c01PtrClass(info.Ptr)
 		if !orig.jwt {
-			if c01UndefinedMembers(rawDoc) == nil && c01UndefinedMembers(mutRaw) != nil {
+			if dropped := c01DroppedByToRDF(mutRaw); dropped != "" && c01DroppedByToRDF(rawDoc) == "" {
+				// the mutated document contains something to-RDF drops silently (e.g. a reference to a node by a relative IRI)
+				opClass = dropped
+				ptrClass = c01UndefinedWhere(info.Ptr)
+			} else if c01UndefinedMembers(rawDoc) == nil && c01UndefinedMembers(mutRaw) != nil {
 				// the mutated document has a member that no JSON-LD context defines: one root cause, few signatures
 				opClass = "undefined-member"
 				ptrClass = c01UndefinedWhere(info.Ptr)
@@ -1211,6 +1248,10 @@ func c01RunTamper(x *h.Ctx, c c01Case) {
 		sig := fmt.Sprintf("tamper-accepted:%s:%s:%s", opClass, ptrClass, format)
 		if info.Class == "embedded-set" {
 			sig = fmt.Sprintf("tamper-accepted:embedded-set:%s:%s", info.Why, format)
+		}
+		if strings.HasPrefix(info.Class, "inner-jwt-") {
+			// claims of an embedded JWT credential rewritten under its old signature: one signature whatever the operator
+			sig = fmt.Sprintf("tamper-accepted:forged-embedded-jwt:%s", format)
 		}
 		where := "Verifier"
 		if !vE.Valid {
@@ -1225,6 +1266,74 @@ func c01RunTamper(x *h.Ctx, c c01Case) {
 	if anyChanged {
 		x.NonTrivial()
 	}
+	// 4. revocation round trip (last, it spoils the credential): the served status list verifies, the node's own
+	// revocation is accepted by its verifier, and afterwards the credential is reported revoked
+	if c.Doc == "vc" && c.Revoke && len(x.Violations()) == 0 {
+		c01Revoke(x, c.Creds[0], creds[0], rawDoc)
+		lap("revoke")
+	}
+}
+
+func c01Revoke(x *h.Ctx, ct c01Cred, cred vc.VerifiableCredential, rawDoc string) {
+	nuts := strings.HasPrefix(cred.Issuer.String(), "did:nuts:")
+	if !nuts {
+		// did:web credentials are revocable only through their status list entry
+		statuses, err := cred.CredentialStatuses()
+		if err != nil || len(statuses) == 0 {
+			return
+		}
+		var entry struct {
+			StatusListCredential string `json:"statusListCredential"`
+		}
+		x.NoErr(json.Unmarshal(statuses[0].Raw(), &entry), "credentialStatus")
+		code, body := c01HTTP("GET", entry.StatusListCredential, "")
+		if code != 200 {
+			x.Violate("own-output-rejected:status-list-not-served", "the status list credential named by a credential the node issued is not served (HTTP %d)", code)
+			return
+		}
+		sl, err := vc.ParseVerifiableCredential(strings.TrimSpace(string(body)))
+		if err != nil {
+			x.Violate("own-output-rejected:status-list-unparseable", "the served status list credential does not parse")
+			return
+		}
+		if err := c01N.vcr.Verifier().VerifySignature(*sl, nil); err != nil {
+			x.Logf("status list: %v\n%s", err, body)
+			x.Violate("own-output-rejected:status-list", "the status list credential served by the node does not verify")
+			return
+		}
+		x.Class("status-list-verified")
+	}
+	// Issuer().Revoke is what DELETE /internal/vcr/v2/issuer/vc/{id} calls (the engine is used directly: how a did:web id
+	// with an escaped port has to be encoded in that path is not this property's subject)
+	revocation, err := c01N.vcr.Issuer().Revoke(audit.TestContext(), *cred.ID)
+	if err != nil {
+		// whether everything the issuer issued can be revoked is C11's subject, not decided here
+		x.Class("revoke-failed:" + ct.Format)
+		x.Logf("revoke: %v", err)
+		return
+	}
+	if nuts {
+		if revocation == nil {
+			x.Fatalf("Revoke returned no revocation for a did:nuts credential")
+		}
+		// through JSON, as it travels over the network
+		body, _ := json.Marshal(revocation)
+		var rev credential.Revocation
+		x.NoErr(json.Unmarshal(body, &rev), "parse revocation")
+		if err := c01N.vcr.Verifier().RegisterRevocation(rev); err != nil {
+			x.Logf("RegisterRevocation: %v\n%s", err, body)
+			x.Violate("own-output-rejected:revocation", "the revocation the node's issuer produced is refused by its verifier")
+			return
+		}
+		x.Class("revocation-registered")
+	}
+	if v := c01VerifyEngine(x, "vc", rawDoc); v.Valid {
+		x.Violate("revoked-credential-accepted:"+ct.Format, "after its revocation (did:nuts=%v) the credential still verifies", nuts)
+	} else if !strings.Contains(strings.ToLower(v.Why), "revoked") {
+		x.Class("revoked-rejected-for-other-reason")
+	} else {
+		x.Class("revoked-then-rejected")
+	}
 }
 
 func op0Part(trial []c01Op) string {
@@ -1236,14 +1345,30 @@ func op0Part(trial []c01Op) string {
 
 // c01TopClass is a coarse location class for statistics.
 func c01TopClass(ptr string, jwt bool, part string) string {
+	if k := strings.Index(ptr, "#"); k >= 0 {
+		ptr = ptr[:k] // inside an embedded JWT
+	}
 	if jwt {
+		// header | claims + the registered claim, or where below vc / vp
 		segs := strings.Split(jsonmut.PointerClass(ptr), "/")
-		if len(segs) > 3 {
-			segs = segs[:3]
+		if len(segs) > 2 && (segs[1] == "vc" || segs[1] == "vp") {
+			return part + "/" + segs[1] + "/" + segs[2]
+		}
+		if len(segs) > 2 {
+			segs = segs[:2]
 		}
 		return part + strings.Join(segs, "/")
 	}
-	return c01CoarseClass(ptr)
+	// JSON-LD: envelope member, credentialSubject, proof; embedded-... inside a presented credential
+	cls := c01CoarseClass(ptr)
+	if strings.HasPrefix(cls, "/verifiableCredential") {
+		rest := strings.TrimPrefix(strings.TrimPrefix(cls, "/verifiableCredential"), "/*")
+		if rest == "" {
+			return "/verifiableCredential"
+		}
+		return "embedded:" + rest
+	}
+	return cls
 }
 
 func c01CoarseClass(ptr string) string {
@@ -1278,6 +1403,84 @@ func c01UndefinedWhere(ptr string) string {
 	return pre + "envelope"
 }
 
+// values (and one scoped context) that json-gold's to-RDF conversion drops without an error
+type c01Lossy struct {
+	name    string
+	value   any
+	context any
+}
+
+var c01LossyValues = []c01Lossy{
+	{name: "relative-iri-reference", value: map[string]any{"id": "admin"}},
+	{name: "invalid-iri-reference", value: map[string]any{"id": "http://"}},
+	{name: "invalid-language-literal", value: map[string]any{"@value": "admin", "@language": "!"}},
+	{name: "invalid-datatype-literal", value: map[string]any{"@value": "admin", "@type": "http://"}},
+	{name: "relative-iri-reference", value: []any{map[string]any{"@id": "a b"}}},
+	{name: "invalid-property-iri", value: "admin", context: map[string]any{"verifTerm": "http://"}},
+}
+
+// c01DroppedByToRDF names the first thing in the expanded document that to-RDF drops silently ("" = nothing found):
+// a node identifier that is a relative or malformed IRI, a malformed property IRI, a literal with a malformed language
+// tag or datatype (classification of accepted tampers only, never an expectation).
+func c01DroppedByToRDF(raw string) string {
+	doc, err := ld.DocumentFromReader(strings.NewReader(raw))
+	if err != nil {
+		return ""
+	}
+	opts := ld.NewJsonLdOptions("")
+	opts.DocumentLoader = c01N.jsonld.DocumentLoader()
+	expanded, err := ld.NewJsonLdProcessor().Expand(doc, opts)
+	if err != nil {
+		return ""
+	}
+	var walk func(v any) string
+	walk = func(v any) string {
+		switch t := v.(type) {
+		case []any:
+			for _, e := range t {
+				if k := walk(e); k != "" {
+					return k
+				}
+			}
+		case map[string]any:
+			if _, isValue := t["@value"]; isValue {
+				lang, _ := t["@language"].(string)
+				dt, _ := t["@type"].(string)
+				if lang != "" && ld.InvalidNode(ld.NewLiteral("", "", lang)) {
+					return "invalid-language-literal"
+				}
+				if dt != "" && ld.InvalidNode(ld.NewLiteral("", dt, "")) {
+					return "invalid-datatype-literal"
+				}
+				return ""
+			}
+			if id, ok := t["@id"].(string); ok {
+				if !ld.IsAbsoluteIri(id) {
+					return "relative-iri-reference"
+				}
+				if ld.InvalidNode(ld.NewIRI(id)) {
+					return "invalid-iri-reference"
+				}
+			}
+			keys := make([]string, 0, len(t))
+			for k := range t {
+				keys = append(keys, k)
+			}
+			sort.Strings(keys)
+			for _, k := range keys {
+				if !strings.HasPrefix(k, "@") && ld.InvalidNode(ld.NewIRI(k)) {
+					return "invalid-property-iri"
+				}
+				if k := walk(t[k]); k != "" {
+					return k
+				}
+			}
+		}
+		return ""
+	}
+	return walk(expanded)
+}
+
 // c01UndefinedMembers says whether the document has members the JSON-LD contexts do not define (classification only).
 func c01UndefinedMembers(raw string) error {
 	return jsonld.AllFieldsDefined(c01N.jsonld.DocumentLoader(), []byte(raw))
@@ -1305,6 +1508,37 @@ func c01ApplyOp(x *h.Ctx, c c01Case, cur *c01Doc, op c01Op, extra func() any) (c
 			*root = out
 		}
 		return info, ok
+	case "add-lossy":
+		// a new member whose value JSON-LD to-RDF is known to drop (json-gold: relative or malformed IRIs, malformed
+		// language tags / datatypes), optionally made a "defined" term by a scoped @context next to it
+		focus := c01FocusPtr(*root, c.Doc, part, op.Focus, op.Sel)
+		m := op.M
+		m.Op = "add"
+		out, info, ok := c01ApplyJSON(*root, focus, m)
+		if !ok || info.Key == "" || info.Why == "keyword-member" || info.Why == "context-edit" {
+			return info, false
+		}
+		container, _ := jsonmut.Lookup(out, info.Ptr)
+		cm, isMap := container.(map[string]any)
+		if !isMap {
+			return info, false
+		}
+		lossy := c01LossyValues[int(op.M.A)%len(c01LossyValues)]
+		key := info.Key
+		if lossy.context != nil {
+			if _, has := cm["@context"]; has {
+				return info, false
+			}
+			delete(cm, key)
+			key = "verifTerm"
+			cm["@context"] = jsonmut.Clone(lossy.context)
+		}
+		cm[key] = jsonmut.Clone(lossy.value)
+		*root = out
+		info.Class, info.Key = "add-lossy", key
+		info.Semantic, info.Why = true, ""
+		info.Detail = fmt.Sprintf("added member %q = %s (%s)", key, jsonmut.Encode(lossy.value), lossy.name)
+		return info, true
 	case "casefold":
 		return c01Casefold(cur, root, part, op)
 	case "date":
@@ -1409,7 +1643,9 @@ func c01InnerJWT(cur *c01Doc, op c01Op) (c01OpInfo, bool) {
 }
 
 // c01Casefold adds a member whose name differs only by case from a member the parsed struct reads. encoding/json matches
-// such a member to the struct field (the last one in document order wins); JSON-LD treats it as an unrelated, undefined term.
+// such a member to the struct field; go-did re-serialises the document with sorted member names before decoding it, so
+// of several matching members the one that sorts last wins (which jsonmut.Encode reproduces). JSON-LD treats the variant
+// as an unrelated term.
 func c01Casefold(cur *c01Doc, root *any, part string, op c01Op) (c01OpInfo, bool) {
 	if part == "header" {
 		return c01OpInfo{}, false
@@ -1487,11 +1723,29 @@ func c01Casefold(cur *c01Doc, root *any, part string, op c01Op) (c01OpInfo, bool
 	}
 	info := c01OpInfo{Class: "add-casefold", Ptr: base, Touched: []string{base + "/" + name, base + "/" + variant}, Semantic: true,
 		Detail: fmt.Sprintf("added member %q shadowing %q", variant, name)}
-	if c01IsEmptyLD(val) && !(name == "verifiableCredential" && len(c01CredList(m)) > 0) {
+	before := c01ParsedCredentials(cur)
+	m[variant] = val
+	if c01IsEmptyLD(val) && before == c01ParsedCredentials(cur) {
+		// a member without any JSON-LD meaning that does not change which credentials the parser sees
 		info.Semantic, info.Why = false, "added-empty-value"
 	}
-	m[variant] = val
 	return info, true
+}
+
+// c01ParsedCredentials renders the credentials the node's parser finds in a presentation (or "" for other documents).
+func c01ParsedCredentials(cur *c01Doc) string {
+	if cur.kind != "vp" {
+		return ""
+	}
+	vp, err := vc.ParseVerifiablePresentation(cur.raw())
+	if err != nil {
+		return "unparseable"
+	}
+	var l []any
+	for _, cred := range vp.VerifiableCredential {
+		l = append(l, c01ViewOfCredential(cred))
+	}
+	return string(jsonmut.Encode(l))
 }
 
 // c01DateShift changes one date-valued string to a different instant.
